@@ -99,6 +99,13 @@ fn table() -> Vec<W> {
     w!("process.execve", "process/execve.rs:execve", "execve", "noreturn", move || u(unsafe { rusl::process::execve(path, core::ptr::null(), core::ptr::null()) }));
     // --- ioctl
     w!("ioctl.ioctl", "ioctl.rs:ioctl", "ioctl", "usize", move || v(unsafe { rusl::ioctl::ioctl(fd, 0x5401, 0) }.map(|x| x as u64)));
+    // --- ioctl-based helpers (no syscall! site of their own: they go through ioctl::ioctl)
+    w!("hidio.get_hid_dev_dev_info", "hidio.rs:get_hid_dev_dev_info", "ioctl", "unit", move || u(rusl::hidio::get_hid_dev_dev_info(fd)));
+    let usbbuf: &'static mut [u8; 16] = leak([0u8; 16]);
+    w!("usb.bulk_transfer", "usb.rs:bulk_transfer", "ioctl", "usize", move || v(rusl::usb::bulk_transfer(fd, 1, &mut usbbuf[..], 10).map(|x| x as u64)));
+    w!("usb.claim_interface", "usb.rs:claim_interface", "ioctl", "unit", move || u(rusl::usb::claim_interface(fd, 0)));
+    w!("usb.reset_usb_device", "usb.rs:reset_usb_device", "ioctl", "unit", move || u(rusl::usb::reset_usb_device(fd)));
+    w!("usb.release_interface", "usb.rs:release_interface", "ioctl", "unit", move || u(rusl::usb::release_interface(fd, 0)));
     // --- unistd: open family
     w!("unistd.open_raw", "unistd/open.rs:open_raw", "openat", "i32", move || v(unsafe { rusl::unistd::open_raw(path.as_ptr() as usize, rflags) }.map(|f| s32(f.value()))));
     w!("unistd.open", "unistd/open.rs:open", "openat", "i32", move || v(rusl::unistd::open(path, rflags).map(|f| s32(f.value()))));
